@@ -11,7 +11,7 @@
     generator writes itself (names, option spellings, fixed syntax), [Dsq t] is a description
     text written through [escape_help] between single quotes, [Ddq t] a possible-value help
     written through [escape_double_quoted(escape_help(..))] inside the double-quoted [-a "..."]
-    list.  [render] turns pieces into bytes; [fish_script] is the byte-exact file.
+    list.  [render_pieces] turns pieces into bytes; [fish_script] is the byte-exact file.
     One Gallina function per Rust function; an [expect] is a visible [None]. *)
 From ClapModel Require Import Base.Bytes Complete.AotTree Escape.EscapeModel.
 From Coq Require Import String.
@@ -123,9 +123,9 @@ Definition render1 (p : piece) : bytes :=
   | Dsq t => fish_escape_help t                 (* escape_help(data), between '...' *)
   | Ddq t => fish_possible_value_help t         (* escape_double_quoted(&escape_help(help)), inside "..." *)
   end.
-Definition render (l : list piece) : bytes := flat_map render1 l.
+Definition render_pieces (l : list piece) : bytes := flat_map render1 l.
 
-Definition nl : bytes := [10].
+Definition lf : bytes := [10].
 Definition tab : bytes := [9].
 
 (** [escape_name]: [name.replace('-', "_")] *)
@@ -139,8 +139,9 @@ Fixpoint join_pieces (sep : list piece) (l : list (list piece)) : list piece :=
   end.
 
 (** ---- fish.rs: value_completion ---- *)
+Definition value_word (name : bytes) : piece := Fx (fish_escape_string name true ++ lit "\t'").
 Definition pv_entry (q : pval * option bytes) : list piece :=
-  [Fx (fish_escape_string (pv_name (fst q)) true ++ lit "\t'");
+  [value_word (pv_name (fst q));
    Ddq (match snd q with Some h => h | None => [] end);     (* value.get_help().unwrap_or_default() *)
    Fx (lit "'")].
 Definition hint_completion (h : hint) : bytes :=
@@ -158,7 +159,7 @@ Definition value_completion (p : arg * adesc) : list piece :=
   else match possible_values (fst p) with
        | Some data =>
            [Fx (lit " -r -f -a """)]
-           ++ join_pieces [Fx nl]
+           ++ join_pieces [Fx lf]
                 (map pv_entry (filter (fun q : pval * option bytes => negb (pv_hide (fst q)))
                                       (zipd None data (ad_pvh (snd p)))))
            ++ [Fx (lit """")]
@@ -167,12 +168,14 @@ Definition value_completion (p : arg * adesc) : list piece :=
 
 (** ---- fish.rs: gen_fish_inner ---- *)
 (** the [-s]/[-l] part of a line *)
+Definition short_word (s : bytes) : piece := Fx (lit " -s " ++ s).
+Definition long_word (l : bytes) : piece := Fx (lit " -l " ++ fish_escape_string l false).
 Definition spellings (a : arg) : list piece :=
   (match get_short_and_visible_aliases a with
-   | Some shorts => map (fun s => Fx (lit " -s " ++ s)) shorts
+   | Some shorts => map short_word shorts
    | None => [] end)
   ++ (match get_long_and_visible_aliases a with
-      | Some longs => map (fun l => Fx (lit " -l " ++ fish_escape_string l false)) longs
+      | Some longs => map long_word longs
       | None => [] end).
 (** [ -d '{}'] *)
 Definition description (h : option bytes) : list piece :=
@@ -181,11 +184,12 @@ Definition description (h : option bytes) : list piece :=
   | None => []
   end.
 Definition opt_line (basic : bytes) (p : arg * adesc) : list piece :=
-  Fx basic :: spellings (fst p) ++ description (ad_help (snd p)) ++ value_completion p ++ [Fx nl].
+  Fx basic :: spellings (fst p) ++ description (ad_help (snd p)) ++ value_completion p ++ [Fx lf].
 Definition flag_line (basic : bytes) (p : arg * adesc) : list piece :=
-  Fx basic :: spellings (fst p) ++ description (ad_help (snd p)) ++ [Fx nl].
+  Fx basic :: spellings (fst p) ++ description (ad_help (snd p)) ++ [Fx lf].
+Definition sub_word (name : bytes) : piece := Fx (lit " -a """ ++ name ++ lit """").
 Definition sub_line (basic : bytes) (name : bytes) (about : option bytes) : list piece :=
-  Fx basic :: Fx (lit " -a """ ++ name ++ lit """") :: description about ++ [Fx nl].
+  Fx basic :: sub_word name :: description about ++ [Fx lf].
 
 Definition is_opt (p : arg * adesc) : bool := a_takes_values (fst p) && negb (a_is_positional (fst p)).
 Definition is_flag (p : arg * adesc) : bool := negb (a_takes_values (fst p)) && negb (a_is_positional (fst p)).
@@ -248,29 +252,29 @@ Definition optspecs (c : cmd) : bytes :=
 
 Definition subcommand_helpers (name : bytes) (c : cmd) (nds usg : bytes) : bytes :=
   let optspecs_fn := lit "__fish_" ++ name ++ lit "_global_optspecs" in
-  lit "# Print an optspec for argparse to handle cmd's options that are independent of any subcommand." ++ nl ++
-  lit "function " ++ optspecs_fn ++ nl ++
-  tab ++ lit "string join \n" ++ optspecs c ++ nl ++
-  lit "end" ++ nl ++ nl ++
-  lit "function " ++ nds ++ nl ++
-  tab ++ lit "# Figure out if the current invocation already has a command." ++ nl ++
-  tab ++ lit "set -l cmd (commandline -opc)" ++ nl ++
-  tab ++ lit "set -e cmd[1]" ++ nl ++
-  tab ++ lit "argparse -s (" ++ optspecs_fn ++ lit ") -- $cmd 2>/dev/null" ++ nl ++
-  tab ++ lit "or return" ++ nl ++
-  tab ++ lit "if set -q argv[1]" ++ nl ++
-  tab ++ tab ++ lit "# Also print the command, so this can be used to figure out what it is." ++ nl ++
-  tab ++ tab ++ lit "echo $argv[1]" ++ nl ++
-  tab ++ tab ++ lit "return 1" ++ nl ++
-  tab ++ lit "end" ++ nl ++
-  tab ++ lit "return 0" ++ nl ++
-  lit "end" ++ nl ++ nl ++
-  lit "function " ++ usg ++ nl ++
-  tab ++ lit "set -l cmd (" ++ nds ++ lit ")" ++ nl ++
-  tab ++ lit "test -z ""$cmd""" ++ nl ++
-  tab ++ lit "and return 1" ++ nl ++
-  tab ++ lit "contains -- $cmd[1] $argv" ++ nl ++
-  lit "end" ++ nl ++ nl.
+  lit "# Print an optspec for argparse to handle cmd's options that are independent of any subcommand." ++ lf ++
+  lit "function " ++ optspecs_fn ++ lf ++
+  tab ++ lit "string join \n" ++ optspecs c ++ lf ++
+  lit "end" ++ lf ++ lf ++
+  lit "function " ++ nds ++ lf ++
+  tab ++ lit "# Figure out if the current invocation already has a command." ++ lf ++
+  tab ++ lit "set -l cmd (commandline -opc)" ++ lf ++
+  tab ++ lit "set -e cmd[1]" ++ lf ++
+  tab ++ lit "argparse -s (" ++ optspecs_fn ++ lit ") -- $cmd 2>/dev/null" ++ lf ++
+  tab ++ lit "or return" ++ lf ++
+  tab ++ lit "if set -q argv[1]" ++ lf ++
+  tab ++ tab ++ lit "# Also print the command, so this can be used to figure out what it is." ++ lf ++
+  tab ++ tab ++ lit "echo $argv[1]" ++ lf ++
+  tab ++ tab ++ lit "return 1" ++ lf ++
+  tab ++ lit "end" ++ lf ++
+  tab ++ lit "return 0" ++ lf ++
+  lit "end" ++ lf ++ lf ++
+  lit "function " ++ usg ++ lf ++
+  tab ++ lit "set -l cmd (" ++ nds ++ lit ")" ++ lf ++
+  tab ++ lit "test -z ""$cmd""" ++ lf ++
+  tab ++ lit "and return 1" ++ lf ++
+  tab ++ lit "contains -- $cmd[1] $argv" ++ lf ++
+  lit "end" ++ lf ++ lf.
 
 (** ---- Fish::generate ---- *)
 (** the file as a list of lines (the helper block, when present, is the first element);
@@ -289,7 +293,7 @@ Definition fish_lines (c : cmd) (d : cdesc) : option (list (list piece)) :=
 Definition fish_pieces (c : cmd) (d : cdesc) : option (list piece) :=
   match fish_lines c d with Some ls => Some (List.concat ls) | None => None end.
 Definition fish_script (c : cmd) (d : cdesc) : option bytes :=
-  match fish_pieces c d with Some ps => Some (render ps) | None => None end.
+  match fish_pieces c d with Some ps => Some (render_pieces ps) | None => None end.
 
 (** [clap_complete::aot::generate(Fish, cmd, bin_name, buf)]: [set_bin_name], [build], the generator *)
 Definition generate_fish (c : cmd) (d : cdesc) (bin : bytes) : option bytes :=
